@@ -125,13 +125,14 @@ type Realm struct {
 	SvcRealm map[string]string
 	Next     map[string]string
 
-	mu      sync.Mutex
-	princs  map[string]*Principal
-	lives   []Life // consumed one per issuance; when empty the policy default applies
-	Issued  []Issued
-	Seen    []Seen
-	Mutate  func(*ReplyCtx)
-	counter uint64
+	mu                 sync.Mutex
+	princs             map[string]*Principal
+	lives              []Life // consumed one per issuance; when empty the typed queues, then the policy default apply
+	tgtLives, svcLives []Life // consumed by requests for krbtgt principals / for other principals
+	Issued             []Issued
+	Seen               []Seen
+	Mutate             func(*ReplyCtx)
+	counter            uint64
 }
 
 // World is a set of realms sharing deterministic key material.
@@ -186,6 +187,20 @@ func (r *Realm) AddService(name string) *Principal {
 
 // PushLife queues lifetime decisions for the next issuances.
 func (r *Realm) PushLife(l ...Life) { r.mu.Lock(); r.lives = append(r.lives, l...); r.mu.Unlock() }
+
+// PushTGTLife queues lifetime decisions for the next tickets requested for a krbtgt principal (logins, TGT renewals).
+func (r *Realm) PushTGTLife(l ...Life) {
+	r.mu.Lock()
+	r.tgtLives = append(r.tgtLives, l...)
+	r.mu.Unlock()
+}
+
+// PushSvcLife queues lifetime decisions for the next tickets requested for any other principal.
+func (r *Realm) PushSvcLife(l ...Life) {
+	r.mu.Lock()
+	r.svcLives = append(r.svcLives, l...)
+	r.mu.Unlock()
+}
 
 // SaltOf is the salt the KDC uses for a client.
 func (r *Realm) SaltOf(p *Principal) string {
@@ -302,9 +317,16 @@ func (r *Realm) pickEType(req []any, have func(int32) bool) int32 {
 func (r *Realm) life(body der.M, now time.Time) (start time.Time, end time.Time, renew time.Time, omitStart bool) {
 	till, _ := body["till"].(time.Time)
 	opts, _ := body["kdc-options"].([]byte)
-	if len(r.lives) > 0 {
-		l := r.lives[0]
-		r.lives = r.lives[1:]
+	q := &r.lives
+	if len(*q) == 0 {
+		q = &r.svcLives
+		if sn, ok := body["sname"]; ok && sn != nil && strings.HasPrefix(nameOf(sn), "krbtgt/") {
+			q = &r.tgtLives
+		}
+	}
+	if len(*q) > 0 {
+		l := (*q)[0]
+		*q = (*q)[1:]
 		start, end = now.Add(l.StartOff), now.Add(l.EndOff)
 		if l.RenewOff != 0 {
 			renew = now.Add(l.RenewOff)
